@@ -104,6 +104,90 @@ m('C20', 'write_chunk_too_large', SC, '''		if dataMaxSize < len(data) {
 			chunk = data[:dataMaxSize]
 			data = data[dataMaxSize:]''')
 
+# ---- C06 write order / recovery
+ST = 'gemmill/consensus/pbft/state.go'
+m('C06', 'state_saved_before_apply', ST, """	err := stateCopy.ApplyBlock(cs.evsw, block, blockParts.Header(), cs.mempool, cs.Round)
+	if err != nil {
+		// TODO!
+		log.Error("apply block", zap.Error(err))
+	}
+""", """	stateCopy.Save()
+	err := stateCopy.ApplyBlock(cs.evsw, block, blockParts.Header(), cs.mempool, cs.Round)
+	if err != nil {
+		// TODO!
+		log.Error("apply block", zap.Error(err))
+	}
+""")
+m('C06', 'height_marker_before_seen_commit', 'gemmill/blockchain/store.go', """	seenCommitBytes := wire.BinaryBytes(seenCommit)
+	bs.db.Set(calcSeenCommitKey(height), seenCommitBytes)
+
+	// Save new BlockStoreStateJSON descriptor
+	BlockStoreStateJSON{Height: height, OriginHeight: bs.originHeight}.Save(bs.db)
+""", """	// Save new BlockStoreStateJSON descriptor
+	BlockStoreStateJSON{Height: height, OriginHeight: bs.originHeight}.Save(bs.db)
+	seenCommitBytes := wire.BinaryBytes(seenCommit)
+	bs.db.Set(calcSeenCommitKey(height), seenCommitBytes)
+""")
+m('C06', 'app_commit_despite_exec_error', 'gemmill/state/execution.go', """	err := s.ExecBlock(eventSwitch, block, partsHeader, round)
+	if err != nil {
+		return errors.New(gcmn.Fmt("Exec failed for application: %v", err))
+	}
+""", """	err := s.ExecBlock(eventSwitch, block, partsHeader, round)
+	if err != nil {
+		log.Error("exec failed", zap.Error(err))
+	}
+""")
+m('C06', 'recovery_reexecutes_synced_app', 'gemmill/angine.go', """	} else if storeBlockHeight == appBlockHeight+1 &&
+		storeBlockHeight == stateBlockHeight+1 {""", """	} else if storeBlockHeight <= appBlockHeight+1 &&
+		storeBlockHeight == stateBlockHeight+1 {""")
+m('C06', 'marker_before_receipts', 'chain/app/evm/evm.go', """	rHash, err := app.SaveReceipts()
+	if err != nil {
+		log.Error("application save receipts", zap.Error(err), zap.Int64("height", block.Height))
+	}
+
+	// the height marker is written last: a crash before it makes the node replay the block (and save its
+	// receipts again) instead of reporting a height whose receipts were never stored
+	app.SaveLastBlock(LastBlockInfo{Height: height, AppHash: appHash.Bytes()})
+""", """	app.SaveLastBlock(LastBlockInfo{Height: height, AppHash: appHash.Bytes()})
+
+	rHash, err := app.SaveReceipts()
+	if err != nil {
+		log.Error("application save receipts", zap.Error(err), zap.Int64("height", block.Height))
+	}
+""")
+
+# ---- C07 write-ahead log
+m('C07', 'handle_before_log', ST, """		case mi = <-cs.peerMsgQueue:
+			cs.wal.Save(mi)
+			// handles proposals, block parts, votes
+			// may generate internal events (votes, complete proposals, 2/3 majorities)
+			cs.handleMsg(mi, rs)""", """		case mi = <-cs.peerMsgQueue:
+			// handles proposals, block parts, votes
+			// may generate internal events (votes, complete proposals, 2/3 majorities)
+			cs.handleMsg(mi, rs)
+			cs.wal.Save(mi)""")
+m('C07', 'timeout_not_logged', ST, """			cs.wal.Save(ti)
+			// if the timeout is relevant to the rs""", """			// if the timeout is relevant to the rs""")
+m('C07', 'record_not_flushed', 'gemmill/consensus/pbft/wal.go', """	// TODO: only flush when necessary
+	if err := wal.group.Flush(); err != nil {
+		gcmn.PanicQ(gcmn.Fmt("Error flushing consensus wal buf to file. Error: %v \\n", err))
+	}
+}
+
+func (wal *WAL) writeHeight""", """}
+
+func (wal *WAL) writeHeight""")
+m('C07', 'replay_mode_left_on', 'gemmill/consensus/pbft/replay.go', """	defer func() { cs.replayMode = false }()
+""", """""")
+m('C07', 'undecodable_line_skipped_silently', 'gemmill/consensus/pbft/replay.go', """	if err != nil {
+		fmt.Println("MsgBytes:", msgBytes, string(msgBytes))
+		return fmt.Errorf("Error reading json data: %v", err)
+	}
+""", """	if err != nil {
+		fmt.Println("MsgBytes:", msgBytes, string(msgBytes))
+	}
+""")
+
 
 def main():
     want = set(sys.argv[1:])
